@@ -48,7 +48,10 @@ def gen(rng, tier):
                 t.insert(rng.randrange(len(t) + 1), rng.choice(['"', chr(92), '"']))
             d = dict(c)
             d["s"] = "".join(t)
-            extra.append(d)
+            # an iterative group may loop on the changed text: such pairs are outside the property
+            # (as for the texts of C13, which are filtered the same way)
+            if rc.terminates(rc.normalise(d["prog"]), d["s"], d["active"]):
+                extra.append(d)
     return cases + extra + yy.gen_cases(rng, tier)
 
 
